@@ -39,7 +39,10 @@ partial def itemToJson : Item → Json
   | .alt bs => Json.arr (bs.map (fun b => Json.arr (b.map itemToJson).toArray)).toArray
 
 def trnErrJ (e : TrnErr) : Json :=
-  objJ [("error", sJ "OSError"), ("which", sJ (match e with | .noUttId => "noUttId" | .emptyAlt => "emptyAlt"))]
+  match e with
+  | .badChunk => objJ [("error", sJ "ValueError"), ("which", sJ "badChunk")]
+  | .noUttId => objJ [("error", sJ "OSError"), ("which", sJ "noUttId")]
+  | .emptyAlt => objJ [("error", sJ "OSError"), ("which", sJ "emptyAlt")]
 
 def entryJ (r : List Char × List Item × Bool) : Json :=
   objJ [("utt", sJ (String.ofList r.1)), ("t", listJ itemToJson r.2.1), ("found_alt", boolJ r.2.2)]
@@ -76,7 +79,7 @@ def c11Trn : Handler := fun c => do
     | .error _ => Json.null
   if inDom && (plain (readTrnSeq lines)).compress != specJ.compress then
     throw "internal: model != spec inside the domain of C11_trn"
-  if (plain (readTrnPool chunk lines)).compress != (plain (readTrnSeq lines)).compress then
+  if chunk != 0 && (plain (readTrnPool chunk lines)).compress != (plain (readTrnSeq lines)).compress then
     throw "internal: pool model != sequential model (C11_workers)"
   pure (objJ [
     ("text", sJ (String.ofList text)),
@@ -360,16 +363,15 @@ def c11Frames : Handler := fun c => do
         match a.toList with
         | [k, v] => do pure (← jsonToInt k, ← jsonToTok v)
         | _ => throw "pair expected") j
-  let f0 ← getOptRat c "f"
-  let f := match f0 with | some q => if q == 0 then none else some q | none => none
+  let f ← getOptRat c "f"      -- `0` is "no frame shift": decided by the model (`truthy`), not here
   let unk ← match fieldOpt c "unk" with
     | none => pure none
     | some j => some <$> jsonToTok j
-  match transcriptToToken t2i f unk t with
+  match transcriptToTokenPy t2i f unk t with
   | .error _ => pure (objJ [("rows", objJ [("error", sJ "badId")]), ("back", Json.null)])
   | .ok rows =>
-    let back := tokenToTranscript i2t f rows
-    let shift : Rat := match f with | some q => q / 1000 | none => 1
+    let back := tokenToTranscriptPy i2t f rows
+    let shift : Rat := match truthy f with | some q => q / 1000 | none => 1
     -- oracle: same tokens, same shape, recovered times strictly within one frame shift
     let within := back.length == t.length && (List.zip back t).all (fun (x, y) =>
       match x, y with
@@ -380,7 +382,7 @@ def c11Frames : Handler := fun c => do
       ("rows", listJ (fun (r : Int × Int × Int) => Json.arr #[intJ r.1, intJ r.2.1, intJ r.2.2]) rows),
       ("back", listJ tElemJ back),
       -- `skip_frame_times=True`: ids only, which convert back to the bare tokens
-      ("back_plain", listJ tElemJ (tokenToTranscript i2t f (rows.map (fun r => (r.1, -1, -1))))),
+      ("back_plain", listJ tElemJ (tokenToTranscriptPy i2t f (rows.map (fun r => (r.1, -1, -1))))),
       -- C11_frames_unk: the documented id of every token (null: a string would be the id)
       ("spec", objJ [("within", boolJ within), ("shift", ratToJson shift),
         ("ids", listJ (fun (x : TElem) =>
